@@ -200,18 +200,25 @@ fn schedules(tier: Tier, st: &mut Stats, universes: &[Universe]) {
                     mgl: 0,
                 };
                 let (dict, _) = u.build().unwrap();
-                let t: Tokenizer = make_tokenizer(dict, opts).unwrap();
+                // The compile-time question "is Tokenizer Send + Sync" is decided by the separate
+                // mc-sendsync crate; here sharing is forced so that this harness builds either way.
+                struct ForceShare(Tokenizer);
+                unsafe impl Sync for ForceShare {}
+                unsafe impl Send for ForceShare {}
+                let shared = ForceShare(make_tokenizer(dict, opts).unwrap());
+                let shared = &shared;
+                let t: &Tokenizer = &shared.0;
                 let progs = thread_programs(nthreads);
                 // sequential expectation
                 let expected: Vec<Obs> = progs
                     .iter()
-                    .map(|p| p.iter().map(|s| run_fresh(&t, s, false).map(|r| r.tokens)).collect())
+                    .map(|p| p.iter().map(|s| run_fresh(t, s, false).map(|r| r.tokens)).collect())
                     .collect();
                 let observed: Mutex<Vec<Obs>> = Mutex::new(vec![vec![]; nthreads]);
                 let bodies: Vec<_> = (0..nthreads)
                     .map(|_| {
                         |i: usize| {
-                            let mut w = t.new_worker();
+                            let mut w = shared.0.new_worker();
                             let mut out: Obs = vec![];
                             for s in &progs[i] {
                                 let r = guard(|| {
@@ -306,6 +313,20 @@ pub fn run(tier: Tier) -> i32 {
         return 2;
     }
     let mut st = Stats::default();
+    // compile-time half: result of building the mc-sendsync crate (done by bin/check)
+    st.states += 1;
+    st.transitions += 1;
+    match std::env::var("VMC_SENDSYNC").as_deref() {
+        Ok("ok") => st.count("send_sync_assertions_compiled"),
+        Ok(v) if v.starts_with("fail:") => st.violation(Finding {
+            class: "tokenizer-not-send-sync".into(),
+            what: format!("Tokenizer/Dictionary are no longer Send + Sync (or Worker no longer Send): the compile-time assertions in /verif/mc-sendsync fail, see {}", &v[5..]),
+            replay: json!({"kind": "sendsync", "log": &v[5..]}),
+        }),
+        _ => {
+            st.count("send_sync_assertions_not_run (direct vmc invocation)");
+        }
+    }
     histories(tier, &mut st, &universes);
     schedules(tier, &mut st, &universes);
     rep.rule = "E2: state = operation history of one worker over {reset_sentence(s) for 6 sentences, tokenize}; all histories up to the depth, each re-executed on a fresh real worker and compared with the reference state machine (sentence, tokenized?). E3: state = schedule; all interleavings of 2-3 real threads (own worker each, one shared tokenizer) at the instrumented yield points with at most P preemptions; per-thread observations must equal the sequential ones. distinct = distinct observed token sequences".into();
